@@ -10,7 +10,7 @@
 From Coq Require Import Extraction ExtrOcamlBasic ExtrOcamlZBigInt.
 From SB Require Import Base.Prelude Gen.Generated Model.Codec Model.Colors Spec.CodecSpec
   Model.Crc Model.Container Spec.CrcSpec Spec.ContainerSpec Model.Loaders Model.Rth Spec.RthSpec
-  Base.Num Model.Poly Model.Traj Spec.BezierSpec Spec.TrajSpec Model.Yaw Spec.YawSpec Model.Light Spec.LightSpec Base.F32 Model.Utils Model.Builder Model.Buffer Model.RootCert Model.Stats Model.Alloc Model.Touch Extract.XCheck.
+  Base.Num Model.Poly Model.Traj Spec.BezierSpec Spec.TrajSpec Model.Yaw Spec.YawSpec Model.Light Spec.LightSpec Base.F32 Model.Utils Model.Builder Model.Buffer Model.RootCert Model.Stats Model.Alloc Model.Touch Model.Solve32 Extract.XCheck.
 
 Extraction Language OCaml.
 
@@ -46,7 +46,7 @@ Extraction "sbmodel.ml"
   buf_append buf_extend_zeros bf_size
   (* C13 C14 C15 C18 *)
   propose_takeoff propose_landing propose_landing_spec poly_max poly_min first_root root_boxes merge_boxes sign_change cauchy_bound
-  shift_poly qeval irange zpoly axis_bounds max_degree touches_linear eval_linear_f32
+  shift_poly qeval irange zpoly axis_bounds max_degree touches_linear eval_linear_f32 solve32
   (* C17 *)
   scenario trace_of
   (* kernel cross-check *)
